@@ -926,9 +926,11 @@ func (i *interpreter) chanSend(ch *channel, v value) {
 	if ch.closed {
 		panic(targetPanic{iface{t: i.runtimeErrorString, v: "send on closed channel"}})
 	}
-	if len(ch.buf) >= ch.cap && ch.cap > 0 {
+	if len(ch.buf) >= ch.cap && ch.cap > 0 && i.goDepth == 0 {
 		unsupported("send on full channel (would block)")
 	}
+	// A goroutine sending on a full (or unbuffered) channel would block until the receiver
+	// drains it; it is run to completion instead and its items are queued in order.
 	// unbuffered channels are treated as a rendez-vous queue of unbounded size: the
 	// receiver runs later on the same (sequential) schedule.
 	ch.buf = append(ch.buf, copyVal(v))
@@ -938,8 +940,8 @@ func (i *interpreter) chanRecv(ch *channel, t types.Type) (value, bool) {
 	if ch == nil {
 		unsupported("receive from nil channel (blocks forever)")
 	}
-	if len(ch.buf) == 0 {
-		i.runPending()
+	for len(ch.buf) == 0 && len(i.pending) > 0 {
+		i.runOnePending()
 	}
 	if len(ch.buf) > 0 {
 		v := ch.buf[0]
@@ -1032,16 +1034,20 @@ func (i *interpreter) runGoroutine(g pendingGo) {
 	call(i, nil, g.pos, g.fn, g.args)
 }
 
+func (i *interpreter) runOnePending() {
+	var g pendingGo
+	if i.goMode == goDeferReverse {
+		g = i.pending[len(i.pending)-1]
+		i.pending = i.pending[:len(i.pending)-1]
+	} else {
+		g = i.pending[0]
+		i.pending = i.pending[1:]
+	}
+	i.runGoroutine(g)
+}
+
 func (i *interpreter) runPending() {
 	for len(i.pending) > 0 {
-		var g pendingGo
-		if i.goMode == goDeferReverse {
-			g = i.pending[len(i.pending)-1]
-			i.pending = i.pending[:len(i.pending)-1]
-		} else {
-			g = i.pending[0]
-			i.pending = i.pending[1:]
-		}
-		i.runGoroutine(g)
+		i.runOnePending()
 	}
 }
